@@ -27,10 +27,14 @@ def replace (f : Forest) (replaced replacing : Nat) : Forest × Res :=
     if !f.structureCheck (some parent) replacing then (f, .err .invalidOperation) else
     if (f.ancestors replacing).contains replaced then (f, .err .invalidOperation) else
     let previous := f.prevSibling replaced
-    if previous == some replacing then f.remove replaced else
+    if previous == some replacing || f.nextSibling replaced == some replacing then f.remove replaced else
     let f1 := f.dropSubtree replaced
     match previous with
-    | some p => f1.insertAfter p replacing
+    | some p =>
+      let (f2, r) := f1.insertAfter p replacing
+      (match r with
+       | .ok => ((f2.removeConsolidate (some p) (f2.nextSibling p)).1, .ok)
+       | r => (f2, r))
     | none => f1.prepend parent replacing
 
 /-- `element_wrap(node, name)`; returns the wrapper. -/
@@ -203,7 +207,11 @@ def removeInsignificantWhitespace (f : Forest) (node : Nat) : Forest :=
   | none => f
   | some t =>
     let toRemove := (descendantsNormal t).filter f.isInsignificantWhitespace
-    toRemove.foldl (fun acc n => (acc.remove n).1) f
+    -- `xot.text_consolidation = false` around the loop (the field is set directly, so this is
+    -- not a `set_text_consolidation` call and `everOff` does not change)
+    let f0 := { f with consolidation := false }
+    let f1 := toRemove.foldl (fun acc n => (acc.remove n).1) f0
+    { f1 with consolidation := f.consolidation }
 
 end Forest
 end XotModel
